@@ -20,4 +20,4 @@ For each change k in (1, 2) deliver, in the directory /tmp/wt/{pid}/_out/ :
   m<k>.diff      — `git diff` of ONLY that change against the unmodified worktree (src/jinja2 files only; apply-able with `git apply` from the repo root)
   m<k>_demo.py   — a small standalone program that uses only the public jinja2 API, exits 0 and prints PASS on the unmodified code, and exits 1 and prints FAIL (with what was observed vs expected) when the change is applied; it must demonstrate a violation of the property statement above (not some other behaviour)
   m<k>_meta.json — {{"property": "{pid}", "summary": "...what the change does...", "needs": "...what specific input/sequence/condition is needed for it to manifest...", "files": [...]}}
-Make each diff separately from a clean tree (use `git stash` / `git checkout -- src` between them), and verify for EACH one yourself: (a) with the change applied, the full test suite prints 911 passed; (b) the demo FAILS with the change and PASSES without it. Leave the worktree's src/ clean (no modifications) when you finish. In your final message, list for each change: the one-line summary, what is needed to trigger it, and confirmation of (a) and (b).""")
+Make each diff separately from a clean tree (use `git checkout -- src` between them; do NOT use `git stash`, the stash is shared with other worktrees), and verify for EACH one yourself: (a) with the change applied, the full test suite prints 911 passed; (b) the demo FAILS with the change and PASSES without it. Leave the worktree's src/ clean (no modifications) when you finish. In your final message, list for each change: the one-line summary, what is needed to trigger it, and confirmation of (a) and (b).""")
